@@ -16,7 +16,7 @@ one() {
   if ! git -C "$wt" apply "$patch" 2>/dev/null; then echo "$id	ERROR	patch does not apply"; git -C /repo worktree remove --force "$wt"; rm -rf "$wt"; return; fi
   ev=$(mktemp -d /tmp/cmev.XXXXXX)
   for p in $(seq -f "C%02g" 1 20); do
-    o=$(GOLIBCHECK_EVIDENCE_DIR=$ev /verif/bin/golibcheck -prop $p -repo "$wt" 2>&1)
+    o=$(GOLIBCHECK_EVIDENCE_DIR=$ev ${GOLIBCHECK_BIN:-/verif/bin/golibcheck} -prop $p -repo "$wt" 2>&1)
     rc=$?
     rules=$(echo "$o" | grep -o "^  \(VIOLATION\|UNDECIDED\) rule=[A-Za-z0-9.-]*" | sed 's/^  //; s/ rule=/:/' | sort | uniq -c | awk '{printf "%s(x%s) ", $2, $1}')
     [ $rc -ne 0 ] && echo "$id	$p	exit=$rc	$rules"
